@@ -21,6 +21,10 @@ type xrunner struct {
 	// quirkEnv, when set, returns the reference environment with the open
 	// known-finding quirks switched on; attribute() names the finding.
 	known func(x XCase, got Outcome, d *adoc.Doc, ctx *adoc.Node, e refExpr) string
+	// extra, when set, is an additional oracle evaluated on the
+	// implementation's outcome after it agreed with the reference as a value;
+	// it returns "" or a description of the violated requirement.
+	extra func(d *adoc.Doc, ctx *adoc.Node, e refExpr, got, want Outcome) string
 }
 
 func newXRunner(c *run.Check, kind string, env EnvSpec) *xrunner {
@@ -117,13 +121,20 @@ func (r *xrunner) runDoc(w int, cache *exprCache, d *adoc.Doc, exprs []refExpr, 
 			} else {
 				got = ExecImpl(b, cur, g, settings)
 			}
+			extraMsg := ""
 			if SameValue(got, want, r.signZero) && !IsPanicErr(got) {
-				if !want.Err && !(want.Type == "node-set" && len(want.Nodes) == 0) {
-					loc.distinct[e.Text+"|"+ctxKindName(ctx)+"|"+shortOutcome(want)] = struct{}{}
+				if r.extra != nil {
+					extraMsg = r.extra(rd, ctx, e, got, want)
 				}
-				continue
+				if extraMsg == "" {
+					if !want.Err && !(want.Type == "node-set" && len(want.Nodes) == 0) {
+						loc.distinct[e.Text+"|"+ctxKindName(ctx)+"|"+shortOutcome(want)] = struct{}{}
+					}
+					continue
+				}
 			}
 			x := MakeXCase(r.kind, rd, ctx, e.Text, env, want, got)
+			x.Extra = extraMsg
 			if r.known != nil {
 				if id := r.known(x, got, rd, ctx, e); id != "" {
 					r.c.Known(id, fmt.Sprintf("%s from %s in %s", e.Text, ctx.Describe(), rd.String()))
